@@ -243,6 +243,8 @@ where
                         continue;
                     }
                 }
+                #[cfg(feature = "verif")]
+                crate::verif::log(crate::verif::LOG_SIGDELIVER, mi as u64, 0);
                 self.transition(mi, Event::Signal);
             }
 
@@ -252,6 +254,8 @@ where
             // another machine)
             if self.signal_pending.take().is_some() {
                 if let Some(excluded) = excluded {
+                    #[cfg(feature = "verif")]
+                    crate::verif::log(crate::verif::LOG_SIGDELIVER, excluded as u64, 0);
                     self.transition(excluded, Event::Signal);
                 }
             }
@@ -261,6 +265,42 @@ where
 
         // only return actions, no None
         self.actions.iter().filter_map(|action| action.as_ref())
+    }
+
+    /// Read-only copy of the complete runtime state (verification hook).
+    #[cfg(feature = "verif")]
+    pub fn verif_snapshot(&self) -> crate::verif::Snapshot<T, T::Duration> {
+        crate::verif::Snapshot {
+            current_time: self.current_time,
+            framework_start: self.framework_start,
+            machines: self
+                .runtime
+                .iter()
+                .enumerate()
+                .map(|(mi, r)| crate::verif::MachineSnapshot {
+                    current_state: r.current_state,
+                    state_limit: r.state_limit,
+                    padding_sent: r.padding_sent,
+                    normal_sent: r.normal_sent,
+                    blocking_duration: r.blocking_duration,
+                    allowed_blocked_microsec: r.allowed_blocked_microsec,
+                    counter_a: r.counter_a,
+                    counter_b: r.counter_b,
+                    counter_zeroed_once: self.counter_zeroed_once[mi],
+                })
+                .collect(),
+            normal_sent_packets: self.normal_sent_packets,
+            padding_sent_packets: self.padding_sent_packets,
+            blocking_duration: self.blocking_duration,
+            blocking_started: self.blocking_started,
+            blocking_active: self.blocking_active,
+            signal_pending: match self.signal_pending {
+                None => 0,
+                Some(SignalTarget::All) => 1,
+                Some(SignalTarget::AllExcept(mi)) => 2 + mi as u64,
+            },
+            actions_set: self.actions.iter().map(|a| a.is_some()).collect(),
+        }
     }
 
     fn process_event(&mut self, e: &TriggerEvent) {
@@ -374,6 +414,8 @@ where
     }
 
     fn transition(&mut self, mi: usize, event: Event) -> StateChange {
+        #[cfg(feature = "verif")]
+        crate::verif::log(crate::verif::LOG_TRANS, mi as u64, event.to_usize() as u64);
         // a machine in end state cannot transition
         if self.runtime[mi].current_state == STATE_END {
             return StateChange::Unchanged;
@@ -391,6 +433,8 @@ where
         let Some(next_state) = next_state else {
             return StateChange::Unchanged;
         };
+        #[cfg(feature = "verif")]
+        crate::verif::log(crate::verif::LOG_NEXT, mi as u64, next_state as u64);
 
         // we got a next state, act on it
         match next_state {
@@ -402,6 +446,8 @@ where
                 StateChange::Changed
             }
             STATE_SIGNAL => {
+                #[cfg(feature = "verif")]
+                crate::verif::log(crate::verif::LOG_SIGSET, mi as u64, 0);
                 // this is not a state change, just signal *other* machines
                 self.signal_pending = match self.signal_pending {
                     // no signal pending, so signal all *other* machines
@@ -517,6 +563,8 @@ where
         }
 
         if any_counter_zeroed {
+            #[cfg(feature = "verif")]
+            crate::verif::log(crate::verif::LOG_CZERO, mi as u64, 0);
             let state_changed = self.transition(mi, Event::CounterZero);
             return (
                 self.actions[mi].is_none(),
@@ -529,6 +577,8 @@ where
     }
 
     fn schedule_action(&mut self, mi: usize, state: usize) {
+        #[cfg(feature = "verif")]
+        crate::verif::log(crate::verif::LOG_SCHED, mi as u64, state as u64);
         let index = MachineId(mi);
         let action = self.machines.as_ref()[mi].states[state].action;
 
@@ -566,6 +616,8 @@ where
     }
 
     fn decrement_limit(&mut self, mi: usize) {
+        #[cfg(feature = "verif")]
+        crate::verif::log(crate::verif::LOG_DEC, mi as u64, 0);
         if self.runtime[mi].state_limit > 0 {
             self.runtime[mi].state_limit -= 1;
         }
@@ -576,6 +628,8 @@ where
                 // take no action and trigger limit reached
                 self.actions[mi] = None;
                 // next, we trigger internally event LimitReached
+                #[cfg(feature = "verif")]
+                crate::verif::log(crate::verif::LOG_LIMIT, mi as u64, 0);
                 self.transition(mi, Event::LimitReached);
             }
         }
